@@ -21,8 +21,10 @@ type invocation struct {
 	Pos   []string
 	Input string
 	Piped bool
-	Out   string
-	Fmt   string
+	// Redirect: with Piped, stdin is a descriptor on the input file (gts < file) rather than a pipe
+	Redirect bool
+	Out      string
+	Fmt      string
 }
 
 func (iv invocation) argv() []string {
@@ -53,11 +55,20 @@ func (iv invocation) clone() invocation {
 	return c
 }
 
+const preamble = "this line was consumed by the caller before gts started\n"
+
 func (iv invocation) step(r *core.RNG) *runStep {
 	rs := &runStep{Argv: iv.argv()}
 	if iv.Piped {
 		rs.Stdin = iv.Input
 		rs.Chunks = genChunks(r)
+		if iv.Redirect {
+			// gts < file: stdin is the file itself, possibly already read in part
+			rs.StdinFile = true
+			if f, ok := stockFiles[iv.Input]; ok && f.Prefix != "" {
+				rs.StdinOffset = len(f.Prefix)
+			}
+		}
 	}
 	return rs
 }
@@ -98,6 +109,8 @@ var stockFiles = map[string]fileSpec{
 	"/u/garbage.gb":  {Parts: []string{"NC_001422_part.gb"}, Text: "this is not a record\n"},
 	"/u/two.fasta":   {Parts: []string{"NC_001422_part.fasta"}, Text: ">second record\nACGTACGTAAACCCGGGTTT\nACGT\n"},
 	"/u/empty.gb":    {Text: ""},
+	"/u/pre.gb":      {Prefix: preamble, Parts: []string{"NC_001422_part.gb"}},
+	"/u/pre.fasta":   {Prefix: preamble, Parts: []string{"NC_001422_part.fasta"}, Text: ">second\nACGTTGCA\n"},
 	"/u/big.gb":      {Parts: []string{"NC_001422.gb", "NC_001422.gb", "NC_001422.gb"}},
 	"/u/big.fasta":   {Parts: []string{"NC_001422.fasta", "NC_001422.fasta", "NC_001422.fasta", "NC_001422.fasta", "NC_001422.fasta", "NC_001422.fasta", "NC_001422.fasta", "NC_001422.fasta", "NC_001422.fasta", "NC_001422.fasta", "NC_001422.fasta", "NC_001422.fasta", "NC_001422.fasta"}},
 	"/u/guest.fasta": {Text: ">guest\nGATTACAGATTACA\n"},
@@ -268,6 +281,12 @@ func genInvocation(r *core.RNG, cmd string) invocation {
 	cmdGens[cmd](r, &iv)
 	iv.Input = primaryInputs[r.Intn(len(primaryInputs))]
 	iv.Piped = r.Chance(3, 5)
+	if iv.Piped && r.Chance(1, 10) {
+		iv.Redirect = true
+		if r.Chance(1, 2) {
+			iv.Input = pickS(r, []string{"/u/pre.gb", "/u/pre.fasta"})
+		}
+	}
 	if !tableOut[cmd] && r.Chance(1, 3) {
 		iv.Fmt = pickS(r, formats)
 	}
